@@ -3,12 +3,16 @@
    harness/lang/src/bin/bc_dump.rs).
 
    One case per input line, tokens separated by blanks (all integers decimal; words are unsigned 64-bit):
-     id nfuns { pwords nparam nret ssize  ncode { OpName operands.. }  nconst {word}  ntables { min noffs {off} } }
-        gsize next { code arity }            (code 255 = an external function the model does not know)
-        dsp(-1 = none) ntypes {0|1 (1 = no boxed reference inside)} fuel do_verify do_run nsamples { now_bits nin {word} }
+     id nfuns { pwords nparam nret ssize  ncode { OpName operands.. }  nconst {word}  ntables { min noffs {off} }
+                nup { pos size is_closure } }
+        gsize next { code arity }            (code 255 = an external function the model does not know; 200 + op = array builtin)
+        dsp(-1 = none) ntypes {0|1 (1 = no boxed reference inside)} ntrees {tree} fuel do_verify do_run nsamples { now_bits nin {word} }
+        tree := P | B tree | S name n {0 | 1 tree} | T n {size tree} | A name
    One answer line per case:
-     #id V <0|1|-> [first failing: fn pc | B <fuel bound of dsp or ->] | main ; sample ; sample ...
-     outcome := R n pos O {word} W {word}  |  F <fault>  |  U <unsupported>  |  T
+     #id V <0|1|-> [first failing: fn pc | B <fuel bound of dsp or -> S <- | F fault | U unsup | T>] | main ; sample ; ...
+       (S: where the INSTRUMENTED semantics stops on an accepted program: - = every call returned)
+     outcome := R n pos O {word} W {word} C closures.len heap.len  |  F <fault>  |  U <unsupported>  |  T
+   The program runs on the extended machine of Bvm/XModel.v (strict = false: the transcription of vm.rs).
    The arithmetic record handed to the model is real IEEE double arithmetic on bit patterns (Int64.float_of_bits),
    the libm of this machine for sin cos pow log; `now` is the value the dump gives for the sample. *)
 open Bvm_model
@@ -95,6 +99,7 @@ let arith_of (now_bits : z) : arith =
       | 17 -> bits (Float.sin a) | 18 -> bits (Float.cos a) | 19 -> bits (Float.tan a)
       | 20 -> bits (Float.sinh a) | 21 -> bits (Float.cosh a) | 22 -> bits (Float.tanh a)
       | 23 -> bits (Float.asin a) | 24 -> bits (Float.acos a) | 25 -> bits (Float.atan a)
+      | 26 | 27 -> (match args with w :: _ -> w | [] -> Z0)
       | 40 -> bits (a +. b) | 41 -> bits (a -. b) | 42 -> bits (a *. b) | 43 -> bits (a /. b) | 44 -> bits (Float.rem a b)
       | 45 -> bits (b2f (a = b)) | 46 -> bits (b2f (a <> b)) | 47 -> bits (b2f (a < b)) | 48 -> bits (b2f (a <= b))
       | 49 -> bits (b2f (a > b)) | 50 -> bits (b2f (a >= b))
@@ -179,7 +184,14 @@ let fn_of (r : rd) : fn =
     let k = int r in
     let offs = times k (fun () -> sz r) in
     { jt_min = mn; jt_offsets = offs }) in
-  { f_pwords = pwords; f_nparam = nparam; f_nret = nret; f_code = code; f_consts = consts; f_jt = tabs; f_ssize = ssize }
+  let nup = int r in
+  let ups = times nup (fun () ->
+    let ps = nn r in
+    let sz = nn r in
+    let isc = int r = 1 in
+    { u_pos = ps; u_size = sz; u_isc = isc }) in
+  { f_pwords = pwords; f_nparam = nparam; f_nret = nret; f_code = code; f_consts = consts; f_jt = tabs; f_ssize = ssize;
+    f_up = ups }
 
 let prog_of (r : rd) : program =
   let nf = int r in
@@ -189,42 +201,69 @@ let prog_of (r : rd) : program =
   let ext = times next_ (fun () ->
     let code = int r in
     let ar = int r in
-    if code = 255 then ExtOther else ExtPure (n_of_int code, n_of_int ar)) in
+    (* 255: unknown; 200 + op: an array builtin, its second number is the element width of a `$arityN` specialisation *)
+    if code = 255 then ExtOther
+    else if code >= 200 then ExtArr (n_of_int (code - 200), n_of_int ar)
+    else ExtPure (n_of_int code, n_of_int ar)) in
   let dsp = int r in
   let nty = int r in
   let tys = times nty (fun () -> int r = 1) in
-  { p_funs = funs; p_gsize = gsize; p_ext = ext; p_dsp = (if dsp < 0 then None else Some (n_of_int dsp)); p_types = tys }
+  let rec tree () : ty =
+    match next r with
+    | "P" -> TPrim
+    | "B" -> let t = tree () in TBoxed t
+    | "A" -> let n = nn r in TAlias n
+    | "S" -> let name = nn r in
+             let k = int r in
+             let vs = times k (fun () -> if int r = 1 then Some (tree ()) else None) in
+             TSum (name, vs)
+    | "T" -> let k = int r in
+             let es = times k (fun () -> let sz = nn r in let t = tree () in (sz, t)) in
+             TTuple es
+    | s -> raise (Bad ("type tree expected: " ^ s)) in
+  let ntr = int r in
+  let trees = times ntr tree in
+  { p_funs = funs; p_gsize = gsize; p_ext = ext; p_dsp = (if dsp < 0 then None else Some (n_of_int dsp)); p_types = tys;
+    p_tys = trees }
 
 (* ---------- printing ---------- *)
 let fault_name = function
   | StackReadOOB -> "StackReadOOB" | ConstOOB -> "ConstOOB" | FnIndexOOB -> "FnIndexOOB" | JumpOOB -> "JumpOOB"
   | StateOOB -> "StateOOB" | GlobalOOB -> "GlobalOOB" | BadNret -> "BadNret" | ExtIndexOOB -> "ExtIndexOOB"
   | JumpTableOOB -> "JumpTableOOB" | BaseUnderflow -> "BaseUnderflow" | TypeTableOOB -> "TypeTableOOB"
-let unsup_name = function UnsupInstr -> "UnsupInstr" | UnsupExt -> "UnsupExt" | UnsupNretFallback -> "UnsupNretFallback" | UnsupBoxed -> "UnsupBoxed"
+  | NoClosureEnv -> "NoClosureEnv" | UpvalueIndexOOB -> "UpvalueIndexOOB"
+  | Dyn DynHandle -> "DynHandle" | Dyn DynUpvalue -> "DynUpvalue" | Dyn DynSignature -> "DynSignature"
+  | Dyn DynReentry -> "DynReentry" | Dyn DynOpenWrite -> "DynOpenWrite" | Dyn DynCellWidth -> "DynCellWidth"
+let unsup_name = function UnsupInstr -> "UnsupInstr" | UnsupExt -> "UnsupExt" | UnsupNretFallback -> "UnsupNretFallback" | UnsupBoxed -> "UnsupBoxed" | UnsupStackAlias -> "UnsupStackAlias"
 
 let add_words b (l : z list) = List.iter (fun w -> Buffer.add_string b (Printf.sprintf " %Lu" (u64_of_z w))) l
 
-let add_outcome b (o : outcome) =
+let add_outcome b (o : xoutcome) =
   match o with
-  | Ret (k, m) ->
+  | XRet (k, x) ->
+      let m = x.x_core in
       Buffer.add_string b (Printf.sprintf "R %d %d O" (int_of_n k) (int_of_n m.m_pos));
       add_words b m.m_stack;
       Buffer.add_string b " W";
-      add_words b m.m_state
-  | Fault f -> Buffer.add_string b ("F " ^ fault_name f)
-  | OutOfFuel -> Buffer.add_string b "T"
-  | Unsupported u -> Buffer.add_string b ("U " ^ unsup_name u)
+      add_words b m.m_state;
+      Buffer.add_string b (Printf.sprintf " C %d %d" (int_of_n (x_ncls x)) (int_of_n (x_nheap x)))
+  | XFault f -> Buffer.add_string b ("F " ^ fault_name f)
+  | XOutOfFuel -> Buffer.add_string b "T"
+  | XUnsupported u -> Buffer.add_string b ("U " ^ unsup_name u)
 
-(* verdict of the extracted verifier (milestone 2) *)
-(* verdict of the extracted verifier, and the checked fuel bound when there is one *)
+(* verdict of the extracted verifier (Bvm/XVerify.v), and the checked fuel bound when there is one (programs of the
+   old subset only: term_ok knows nothing about indirect calls) *)
 let fuel_bound (p : program) : (int * int) option =
-  if term_ok p (costs p) then Some (int_of_n (fuel_main p), int_of_n (fuel_dsp p)) else None
+  if closure_free p && verify p && term_ok p (costs p) then Some (int_of_n (fuel_main p), int_of_n (fuel_dsp p)) else None
 
 let verdict (p : program) (fb : (int * int) option) : string =
-  if verify p then (match fb with Some (_, d) -> Printf.sprintf "V 1 B %d" d | None -> "V 1 B -")
-  else match first_bad p with
+  if xverify p then (match fb with Some (_, d) -> Printf.sprintf "V 1 B %d" d | None -> "V 1 B -")
+  else match xfirst_bad p with
     | Some (fi, pc) -> Printf.sprintf "V 0 fn %d pc %d" (int_of_n fi) (int_of_n pc)
     | None -> "V 0 entry"
+
+(* BVM_STRICT=1: run the instrumented semantics (development aid: how often do its extra checks fire on real bytecode) *)
+let strict = (try Sys.getenv "BVM_STRICT" = "1" with Not_found -> false)
 
 let run_case (line : string) : string =
   let toks = Array.of_list (List.filter (fun s -> s <> "") (String.split_on_char ' ' line)) in
@@ -244,26 +283,43 @@ let run_case (line : string) : string =
       let ins = times nin (fun () -> word r) in
       (now, ins)) in
     (* an accepted program with a checked fuel bound runs with EXACTLY that fuel (theorem C03_bvm_fuel) *)
-    let fb = if do_verify = 1 && verify p then fuel_bound p else None in
+    let fb = if do_verify = 1 && xverify p then fuel_bound p else None in
     let fuel_m, fuel_d = match fb with Some (fm, fd) -> nat_of_int fm, nat_of_int fd | None -> fuel, fuel in
     if do_verify = 1 then begin
-      Buffer.add_string b (verdict p fb)
+      Buffer.add_string b (verdict p fb);
+      (* an accepted program also runs in the instrumented semantics (theorem C03_bvm_closures_verified_safe_partial) *)
+      if xverify p && do_run = 1 then begin
+        let stop = ref "-" in
+        let note o = match o with
+          | XRet _ -> () | XFault f -> stop := "F " ^ fault_name f | XUnsupported u -> stop := "U " ^ unsup_name u
+          | XOutOfFuel -> stop := "T" in
+        (match xexec_main (arith_of Z0) p true fuel_m (xmach0 p) with
+         | XRet (_, x) ->
+             let x = ref x in
+             List.iter (fun (now, ins) ->
+               if !stop = "-" then
+                 (match xexec_dsp (arith_of now) p true fuel_d ins !x with
+                  | XRet (_, x') -> x := x'
+                  | o -> note o)) rows
+         | o -> note o);
+        Buffer.add_string b (" S " ^ !stop)
+      end
     end else Buffer.add_string b "V -";
     Buffer.add_string b " |";
     if do_run = 1 then begin
       let a0 = arith_of Z0 in
-      let o = exec_main a0 p fuel_m (mach0 p) in
+      let o = xexec_main a0 p strict fuel_m (xmach0 p) in
       Buffer.add_char b ' ';
       add_outcome b o;
       (match o with
-       | Ret (_, m) ->
+       | XRet (_, m) ->
            let m = ref m and go = ref true in
            List.iter (fun (now, ins) ->
              if !go then begin
-               let o = exec_dsp (arith_of now) p fuel_d ins !m in
+               let o = xexec_dsp (arith_of now) p strict fuel_d ins !m in
                Buffer.add_string b " ; ";
                add_outcome b o;
-               (match o with Ret (_, m') -> m := m' | _ -> go := false)
+               (match o with XRet (_, m') -> m := m' | _ -> go := false)
              end) rows
        | _ -> ())
     end
